@@ -234,6 +234,15 @@ def gen_case(rng, force=None):
                 step_ops[mi].append(["zero", "pixel", "float64"])  # drains what earlier models / steps collected
             if rng.random() < 0.12:
                 step_ops[mi].append(["scene", rng.randrange(1, 50), rng.choice([wl, wl, [500.0, 700.0], [400.0, 500.0, 600.0, 800.0]])])
+            if rng.random() < (0.6 if force.get("datac") else 0.08):
+                # processed data along a dimension named like a bucket dimension, same length, OTHER labels (e.g. one value
+                # per readout labelled with the mid-integration time; a profile along x in micrometres)
+                dim = rng.choice(["time", "time", "x", "y"])
+                ln = {"time": nsteps, "x": cols, "y": rows}[dim]
+                labels = [(start + tt - 0.0625) for tt in times] if dim == "time" else [2.5 * q + 1.25 for q in range(ln)]
+                step_ops[mi].append(["datac", rng.choice(["gamma", "delta"]), dim, labels, [rng.randrange(0, 99) for _ in range(ln)]])
+            if force.get("scene_each") and mi == 0:
+                step_ops[mi].append(["scene", 3 + i, wl])
             if rng.random() < 0.15:
                 step_ops[mi].append(["data", rng.choice(["alpha", "beta"]) + (str(i) if rng.random() < 0.5 else ""), [rng.randrange(0, 99) for _ in range(3)]])
         plan.append(step_ops)
@@ -380,6 +389,15 @@ def one_run(case, layout_tree, debug, det=None):
     scene_ok = data_ok = True
     if snaps:
         scene_ok = tree_same(res["scene"] if "scene" in res.children else None, snaps[-1]["scene"])
+        # … and the scene is what the models PRODUCED during the last readout: exactly the sources they added then, in order
+        want_src = [probes.c03_source(op) for ops in case["plan"][-1] for op in ops if op[0] == "scene"]
+        got_tree = res["scene"] if "scene" in res.children else None
+        got_src = []
+        if got_tree is not None and "list" in got_tree.children:
+            lst = got_tree["list"]
+            got_src = [lst[k].to_dataset(inherit=False) for k in sorted(lst.children, key=lambda x: int(x) if str(x).isdigit() else 10**9)]
+        if len(want_src) <= 1:  # (with several sources per readout `Scene.add_source` reuses keys — outside this property)
+            scene_ok = scene_ok and len(got_src) == len(want_src) and all(g.identical(w) for g, w in zip(got_src, want_src))
         data_ok = tree_same(res["data"] if "data" in res.children else None, snaps[-1]["data"])
     return {
         "result": canon_result(res, case["rows"], case["cols"]),
@@ -550,7 +568,8 @@ def property_predicate(case, impl):
         if why:
             return why
     flat, tree, dbg = impl["flat"], impl["tree"], impl["debug"]
-    if tree["result"]["layout"] != "/bucket" or (flat["result"]["layout"] != "/" and flat["scene_empty"]):
+    labelled_data = any(op[0] == "datac" for so in case["plan"] for ops in so for op in ops)  # then the flat layout cannot hold /data
+    if tree["result"]["layout"] != "/bucket" or (flat["result"]["layout"] != "/" and flat["scene_empty"] and not labelled_data):
         return ("C03:layouts", f"layout keys: flat run under {flat['result']['layout']}, hierarchical run under {tree['result']['layout']}")
     strip = lambda r: {k: v for k, v in r.items() if k != "layout"}  # noqa: E731
     if strip(flat["result"]) != strip(tree["result"]):
@@ -641,7 +660,9 @@ def lean_request(case):
     return {"op": "run", "npix": case["rows"] * case["cols"], "nd": case["nd"],
             "abs": [common.frac(case["start"] + t) for t in case["times"]],
             "prior": {b: None for b in BUCKETS}, "steps": steps, "scene_empty": not scene_in_last_step(case),
-            "debug_tree": bool(case["debug_layout_tree"]), "clash_debug": grids_change(case)}
+            "debug_tree": bool(case["debug_layout_tree"]),
+            "clash_flat": any(op[0] == "datac" for so in case["plan"] for ops in so for op in ops),
+            "clash_debug": grids_change(case) or any(op[0] == "datac" for so in case["plan"] for ops in so for op in ops)}
 
 
 def grids_change(case):
@@ -701,6 +722,10 @@ def body(ck: common.Check):
     # schedule lengths around powers of two / typical block sizes (one writer, tiny detector)
     for n in ([16, 17, 33, 65] if ck.tier == "quick" else [15, 16, 17, 18, 31, 32, 33, 34, 63, 64, 65, 100, 129]):
         cases.append(("long-schedules", gen_case(rng, {"nsteps": n, "single_model": True})))
+    for _ in range(5 * k):
+        cases.append(("scene-each-readout", gen_case(rng, {"scene_each": True, "nd": True, "nsteps": rng.choice([2, 3, 4])})))
+    for _ in range(6 * k):
+        cases.append(("labelled-data", gen_case(rng, {"datac": True, "nsteps": rng.choice([1, 2, 3])})))
     for _ in range(6 * k):
         cases.append(("rerun-other-start", gen_case(rng, {"rerun": True, "nsteps": rng.choice([1, 2, 3])})))
     for _ in range(6 * k):
@@ -744,6 +769,7 @@ def body(ck: common.Check):
                 ck.count("charge-op=" + op[0] + (":" + op[1] if op[0] == "clusters" else ""))
         ck.count("scene-written", int(any(op[0] == "scene" for op in ops)))
         ck.count("data-written", int(any(op[0] == "data" for op in ops)))
+        ck.count("labelled-data-written", int(any(op[0] == "datac" for op in ops)))
         ck.count("second-run-on-same-detector", int(bool(case.get("second_run"))))
         ck.count("rerun-with-other-start-time", int(case.get("rerun_start") is not None))
         try:
